@@ -136,13 +136,15 @@ func setBitfield(bytes []byte, start, width int, value int64) {
 }
 
 func isSignedSumOverflow(a, b int64, bits int) bool {
+	// a is within the range of the type; the limit is moved by b rather than
+	// by a, because that difference never leaves the int64 range, even for 64 bits
 	signBit := int64(1) << (bits - 1)
 	if b > 0 {
 		ceiling := signBit - 1
-		return b > (ceiling - a)
+		return a > (ceiling - b)
 	} else {
 		bottom := ^(signBit - 1)
-		return b < (bottom - a)
+		return a < (bottom - b)
 	}
 }
 
